@@ -190,6 +190,10 @@ for _p in _ALL:
                      'transform': ('invert-ifs', [P, T])})
     VARIANTS.append({'id': f'{_p.lower()}-p-first-arg-temps-parser-tools', 'prop': _p, 'kind': 'preserve', 'edits': [],
                      'transform': ('first-arg-temps', [P, T])})
+    VARIANTS.append({'id': f'{_p.lower()}-p-expand-augassign-all', 'prop': _p, 'kind': 'preserve', 'edits': [],
+                     'transform': ('expand-augassign', [F, C, P, T])})
+    VARIANTS.append({'id': f'{_p.lower()}-p-flip-order-comparisons-all', 'prop': _p, 'kind': 'preserve', 'edits': [],
+                     'transform': ('flip-order-comparisons', [F, C, P, T])})
     VARIANTS.append({'id': f'{_p.lower()}-p-rename-locals-tools', 'prop': _p, 'kind': 'preserve', 'edits': [],
                      'transform': ('rename', T, {'root': 'tap_root', 'src': 'template_src', 'sig': 'signature_bytes',
                                                  'left_data': 'lhs_bytes', 'right_type': 'rhs_tag'})})
